@@ -127,3 +127,16 @@ package nsx
 //vc:  hypothesis[C04] @newRulesHaveIds forall k int :: { l[k] } 0 <= k && k < len(l) ==> l[k].Id != ""
 //vc:  hypothesis[C04] @newRulesAreDistinct forall j int, k int :: { l[j], l[k] } 0 <= j && j < k && k < len(l) ==> l[j] != l[k]
 //vc:  invariant[C04] 1 "for _, ru := range l" @unwrittenRulesKeepTheirId -1 <= rangeindex && (forall k int :: { l[k] } rangeindex < k && k < len(l) ==> l[k].Id != "")
+
+// C07, target side: a raw file is accepted only if every policy, group and
+// service it defines carries the Netspoc prefix. An object of another name is
+// never read from the manager (see LoadDevice above), so writing it would
+// overwrite an administrator's object of that name as a whole.
+//vc:func checkRaw
+//vc:  invariant[C07] 1 "for _, p := range c.Policies" @policiesSoFarPrefixed -1 <= rangeindex && (forall k int :: { c.Policies[k] } 0 <= k && k <= rangeindex ==> strings.HasPrefix(c.Policies[k].Id, "Netspoc"))
+//vc:  invariant[C07] 2 "for _, r := range p.Rules" true
+//vc:  invariant[C07] 3 "for _, g := range c.Groups" @groupsSoFarPrefixed -1 <= rangeindex && (forall k int :: { c.Groups[k] } 0 <= k && k <= rangeindex ==> strings.HasPrefix(c.Groups[k].Id, "Netspoc"))
+//vc:  invariant[C07] 4 "for _, g := range c.Services" @servicesSoFarPrefixed -1 <= rangeindex && (forall k int :: { c.Services[k] } 0 <= k && k <= rangeindex ==> strings.HasPrefix(c.Services[k].Id, "Netspoc-raw"))
+//vc:  ensures[C07] @rawPoliciesPrefixed result == nil ==> (forall k int :: { c.Policies[k] } 0 <= k && k < len(c.Policies) ==> strings.HasPrefix(c.Policies[k].Id, "Netspoc"))
+//vc:  ensures[C07] @rawGroupsPrefixed result == nil ==> (forall k int :: { c.Groups[k] } 0 <= k && k < len(c.Groups) ==> strings.HasPrefix(c.Groups[k].Id, "Netspoc"))
+//vc:  ensures[C07] @rawServicesPrefixed result == nil ==> (forall k int :: { c.Services[k] } 0 <= k && k < len(c.Services) ==> strings.HasPrefix(c.Services[k].Id, "Netspoc-raw"))
